@@ -14,7 +14,11 @@ One `Op` per atomic action of the real code, so that "for every schedule" is
 * `err w`    – the request failed (429 / 5xx / network); the worker asks again,
 * `grow n`   – continuous mode: `updateSTH` accepted an STH of size `n` (only when the generator has nothing left to
                hand out: the cursor is at — or, for a start index beyond the tree, past — the end),
-* `stop`     – `Fetcher.Stop()`; `cancel` – the caller's context is cancelled,
+* `stop`     – `Fetcher.Stop()`: only the generator is asked to finish; workers complete (and keep retrying) what they hold,
+* `cancel`   – the caller's context is cancelled: the generator is asked to finish *and* workers may give up,
+* `abandon w` – worker `w` sees `ctx.Err() != nil` (at the top of its loop, or because `bo.Retry` returned the context
+               error) and returns without finishing its range; enabled only after `cancel`. The dropped range is kept
+               in `abandoned` so that every index stays accounted for,
 * `close`    – the generator goroutine exits (`close(ranges)`),
 * `take m j` / `proc m` – matcher worker `m` receives a queued entry / runs `processEntry` on it. The queue is a *bag*:
   `flatten` pushes the entries of concurrently fetched batches one by one, so their order in the channel is not the order
@@ -46,6 +50,7 @@ structure St where
   closed : Bool := false
   workers : List (Option Rng)
   delivered : List Entry := []
+  abandoned : List Rng := []
   queue : List Entry := []
   matchers : List (Option Entry) := []
   called : List (Bool × Entry) := []
@@ -56,6 +61,7 @@ inductive Op where
   | resp (w k : Nat)
   | respRaw (w k : Nat)
   | err (w : Nat)
+  | abandon (w : Nat)
   | grow (n : Nat)
   | stop
   | cancel
@@ -104,6 +110,10 @@ def step (e : Env) (s : St) : Op → St
     | some (some (lo, hi)) => deliver e s w lo hi k
     | _ => s
   | .err _ => s
+  | .abandon w =>
+    match s.workers[w]? with
+    | some (some r) => if s.cancelled then { s with workers := s.workers.set w none, abandoned := r :: s.abandoned } else s
+    | _ => s
   | .grow n => if growEnabled s n then { s with end_ := n } else s
   | .stop => { s with stopReq := true }
   | .cancel => { s with stopReq := true, cancelled := true }
@@ -123,7 +133,7 @@ def run (e : Env) (s : St) (ops : List Op) : St := ops.foldl (step e) s
 
 /-- an op that moves the scan forward (everything except errors, requests to stop, and growth of the log) -/
 def Op.isProgress : Op → Bool
-  | .hand _ | .resp _ _ | .close | .take _ _ | .proc _ => true
+  | .hand _ | .resp _ _ | .abandon _ | .close | .take _ _ | .proc _ => true
   | _ => false
 
 /-- ops a contract-abiding server and the real scheduler can produce -/
@@ -145,6 +155,10 @@ def enabled (s : St) : Op → Bool
   | .err w =>
     match s.workers[w]? with
     | some (some _) => true
+    | _ => false
+  | .abandon w =>
+    match s.workers[w]? with
+    | some (some _) => s.cancelled
     | _ => false
   | .grow n => growEnabled s n
   | .stop => true
@@ -179,6 +193,11 @@ def pend : List (Option Rng) → Nat → Nat
   | none :: t, i => pend t i
   | some (lo, hi) :: t, i => inR lo hi i + pend t i
 
+/-- how many abandoned ranges hold index `i` -/
+def acnt : List Rng → Nat → Nat
+  | [], _ => 0
+  | (lo, hi) :: t, i => inR lo hi i + acnt t i
+
 /-- entries still to be fetched by busy workers -/
 def remaining : List (Option Rng) → Nat
   | [] => 0
@@ -192,6 +211,6 @@ def busy {α} : List (Option α) → Nat
 
 /-- termination measure: strictly decreases on every enabled progress op -/
 def scanMeasure (s : St) : Nat :=
-  4 * (s.end_ - s.cursor) + 3 * remaining s.workers + 2 * s.queue.length + busy s.matchers + (if s.closed then 0 else 1)
+  5 * (s.end_ - s.cursor) + 3 * remaining s.workers + busy s.workers + 2 * s.queue.length + busy s.matchers + (if s.closed then 0 else 1)
 
 end CTV.Model.Scan
